@@ -500,16 +500,17 @@ package commitlog
 // entryOffAt(idx, i): the offset recorded in slot i of the index (what ReadEntryAtLogOffset decodes; assumed)
 //@ pure func entryOffAt(idx *index, i int64) int64
 //@ pure func entryCount(idx *index) int64 = idx.position / 20
+//@ pure func entryTsAt(idx *index, i int64) int64
 //@ assume func (*index).ReadEntryAtFileOffset
 //@   modifies e.Offset, e.Timestamp, e.Position, e.Size
 //@   ensures (result == nil) <==> (0 <= fileOffset && fileOffset + 20 <= idx.position)
-//@   ensures result == nil && fileOffset % 20 == 0 ==> e.Offset == entryOffAt(idx, fileOffset / 20)
+//@   ensures result == nil && fileOffset % 20 == 0 ==> e.Offset == entryOffAt(idx, fileOffset / 20) && e.Timestamp == entryTsAt(idx, fileOffset / 20)
 //@   ensures result != ErrEntryNotFound
-//@ func (*index).ReadEntryAtLogOffset serves C08, C10, C11, C01
+//@ func (*index).ReadEntryAtLogOffset serves C08, C10, C11, C01, C03
 //@   requires idx != nil && e != nil && idx.position >= 0
 //@   modifies e.Offset, e.Timestamp, e.Position, e.Size
 //@   ensures (result == nil) <==> (0 <= logOffset && logOffset < entryCount(idx))
-//@   ensures result == nil ==> e.Offset == entryOffAt(idx, logOffset)
+//@   ensures result == nil ==> e.Offset == entryOffAt(idx, logOffset) && e.Timestamp == entryTsAt(idx, logOffset)
 //@ func (*index).Position serves C08, C10, C01
 //@   requires idx != nil
 //@   modifies nothing
@@ -646,3 +647,69 @@ package commitlog
 // checkpoints (high watermark, leader epochs) are replaced atomically: the only file-writing callee is atomic_file.WriteFile
 //@ callees (*commitLog).checkpointHW serves C05: strconv, strings, path/filepath, github.com/natefinch/atomic
 //@ callees (*leaderEpochCache).flush serves C05: bytes, fmt, github.com/natefinch/atomic
+
+// ---------------------------------------------------------------------------------------------
+// Timestamp lookups (property C10): start / stop positions given as timestamps
+//
+// findEntryByTimestamp: the first index entry whose timestamp is >= the argument (timestamps within an index do
+// not decrease - assumed, they are reception times assigned by one leader at a time)
+//@ func (*segment).findEntryByTimestamp$1 serves C10
+//@   assumes s != nil && s.Index != nil && s.Index.position >= 0 && entry != nil && 0 <= i && i < entryCount(s.Index)
+//@   preserves [no-read-error-in-range] err == nil
+//@   ensures result == (entryTsAt(s.Index, i) >= timestamp)
+//@ func (*segment).findEntryByTimestamp serves C10
+//@   returns (ent, err)
+//@   requires s != nil
+//@   assumes s.Index != nil && s.Index.position >= 0
+//@   assumes forall i int64, j int64 :: 0 <= i && i < j && j < entryCount(s.Index) ==> entryTsAt(s.Index, i) <= entryTsAt(s.Index, j)
+//@   ensures [found] err == nil ==> ent != nil && (exists k int64 :: 0 <= k && k < entryCount(s.Index) && ent.Offset == entryOffAt(s.Index, k) && ent.Timestamp == entryTsAt(s.Index, k) && entryTsAt(s.Index, k) >= timestamp && (forall i int64 :: 0 <= i && i < k ==> entryTsAt(s.Index, i) < timestamp))
+//@   ensures [none] err == ErrEntryNotFound ==> (forall i int64 :: 0 <= i && i < entryCount(s.Index) ==> entryTsAt(s.Index, i) < timestamp)
+//@   ensures [found-or-not-found] err == nil || err == ErrEntryNotFound
+//@ pure func segEmpty(s *segment) bool = entryCount(s.Index) == 0
+//@ pure func firstTs(s *segment) int64 = entryTsAt(s.Index, 0)
+// findSegmentIndexByTimestamp: the first segment whose first message is newer than the timestamp (an empty segment -
+// only the active one can be - counts as newer than everything)
+//@ axiom io.EOF != nil
+//@ func findSegmentIndexByTimestamp$1 serves C10
+//@   preserves [no-error-for-an-empty-segment] err != io.EOF
+//@   assumes 0 <= i && i < len(segments) && segments[i] != nil && segments[i].Index != nil && segments[i].Index.position >= 0
+//@   ensures result == (segEmpty(segments[i]) || firstTs(segments[i]) > timestamp)
+//@ func findSegmentIndexByTimestamp serves C10
+//@   returns (idx, err)
+//@   assumes forall i int :: 0 <= i && i < len(segments) ==> segments[i] != nil && segments[i].Index != nil && segments[i].Index.position >= 0
+//@   assumes forall i int, j int :: 0 <= i && i < j && j < len(segments) && (segEmpty(segments[i]) || firstTs(segments[i]) > timestamp) ==> (segEmpty(segments[j]) || firstTs(segments[j]) > timestamp)
+//@   ensures [index] 0 <= idx && idx <= len(segments)
+//@   ensures [older-before] forall i int :: 0 <= i && i < idx ==> !segEmpty(segments[i]) && firstTs(segments[i]) <= timestamp
+//@   ensures [newer-at] idx < len(segments) ==> segEmpty(segments[idx]) || firstTs(segments[idx]) > timestamp
+//@   ensures [no-error-for-an-empty-segment] err != io.EOF
+// the log as the lookups see it: segments and their indexes are there; timestamps and offsets do not decrease along
+// the log (within an index and from one segment to the next); only the last segment may be empty
+//@ pure func tsLogWF(l *commitLog) bool = len(l.segments) >= 1 && (forall s int :: 0 <= s && s < len(l.segments) ==> l.segments[s] != nil && l.segments[s].Index != nil && l.segments[s].Index.position >= 0 && l.segments[s].BaseOffset >= 0) && (forall s int :: 0 <= s && s < len(l.segments) - 1 ==> !segEmpty(l.segments[s])) && (forall s int, i int64, j int64 {entryTsAt(l.segments[s].Index, i), entryTsAt(l.segments[s].Index, j)} :: 0 <= s && s < len(l.segments) && 0 <= i && i < j && j < entryCount(l.segments[s].Index) ==> entryTsAt(l.segments[s].Index, i) <= entryTsAt(l.segments[s].Index, j)) && (forall s int, i int64, j int64 {entryOffAt(l.segments[s].Index, i), entryOffAt(l.segments[s].Index, j)} :: 0 <= s && s < len(l.segments) && 0 <= i && i < j && j < entryCount(l.segments[s].Index) ==> entryOffAt(l.segments[s].Index, i) < entryOffAt(l.segments[s].Index, j)) && (forall s int, t int, i int64, j int64 {entryTsAt(l.segments[s].Index, i), entryTsAt(l.segments[t].Index, j)} :: 0 <= s && s < t && t < len(l.segments) && 0 <= i && i < entryCount(l.segments[s].Index) && 0 <= j && j < entryCount(l.segments[t].Index) ==> entryTsAt(l.segments[s].Index, i) <= entryTsAt(l.segments[t].Index, j)) && (forall s int, t int, i int64, j int64 {entryOffAt(l.segments[s].Index, i), entryOffAt(l.segments[t].Index, j)} :: 0 <= s && s < t && t < len(l.segments) && 0 <= i && i < entryCount(l.segments[s].Index) && 0 <= j && j < entryCount(l.segments[t].Index) ==> entryOffAt(l.segments[s].Index, i) < entryOffAt(l.segments[t].Index, j)) && (forall s int, i int64 {entryOffAt(l.segments[s].Index, i)} :: 0 <= s && s < len(l.segments) && 0 <= i && i < entryCount(l.segments[s].Index) ==> entryOffAt(l.segments[s].Index, i) < nextOf(l.segments[len(l.segments)-1])) && (forall s int, i int64 {entryOffAt(l.segments[s].Index, i)} :: 0 <= s && s < len(l.segments) && 0 <= i && i < entryCount(l.segments[s].Index) ==> l.segments[s].BaseOffset <= entryOffAt(l.segments[s].Index, i) && entryOffAt(l.segments[s].Index, i) <= l.segments[s].lastOffset) && (forall s int, t int {l.segments[s], l.segments[t]} :: 0 <= s && s < t && t < len(l.segments) ==> nextOf(l.segments[s]) <= l.segments[t].BaseOffset)
+// messages in different segments never carry the same timestamp (see the known finding on equal timestamps)
+//@ pure func tsBoundariesStrict(l *commitLog) bool = forall s int, t int, i int64, j int64 {entryTsAt(l.segments[s].Index, i), entryTsAt(l.segments[t].Index, j)} :: 0 <= s && s < t && t < len(l.segments) && 0 <= i && i < entryCount(l.segments[s].Index) && 0 <= j && j < entryCount(l.segments[t].Index) ==> entryTsAt(l.segments[s].Index, i) < entryTsAt(l.segments[t].Index, j)
+// EarliestOffsetAfterTimestamp(ts): the offset of the first message whose timestamp is >= ts, the next offset if none
+//@ func (*commitLog).EarliestOffsetAfterTimestamp serves C10
+//@   returns (off, err)
+//@   requires l != nil
+//@   assumes tsLogWF(l)
+//@   call findEntryByTimestamp requires [hint-older-segments-hold-nothing-recent-enough] tsBoundariesStrict(l) ==> (forall s int, i int64 {entryTsAt(l.segments[s].Index, i)} :: 0 <= s && s < idx - 1 && 0 <= i && i < entryCount(l.segments[s].Index) ==> entryTsAt(l.segments[s].Index, i) < timestamp)
+//@   ensures [a-match-or-the-end] err == nil ==> off == nextOf(l.segments[len(l.segments)-1]) || (exists s int, i int64 :: 0 <= s && s < len(l.segments) && 0 <= i && i < entryCount(l.segments[s].Index) && entryOffAt(l.segments[s].Index, i) == off && entryTsAt(l.segments[s].Index, i) >= timestamp)
+//@   ensures [no-earlier-match] err == nil && tsBoundariesStrict(l) ==> (forall s int, i int64 :: 0 <= s && s < len(l.segments) && 0 <= i && i < entryCount(l.segments[s].Index) && entryTsAt(l.segments[s].Index, i) >= timestamp ==> entryOffAt(l.segments[s].Index, i) >= off)
+//@   ensures [no-earlier-match-equal-timestamps] err == nil ==> (forall s int, i int64 :: 0 <= s && s < len(l.segments) && 0 <= i && i < entryCount(l.segments[s].Index) && entryTsAt(l.segments[s].Index, i) >= timestamp ==> entryOffAt(l.segments[s].Index, i) >= off)
+// all timestamps along the log differ (see the known finding on equal timestamps)
+//@ pure func tsAllStrict(l *commitLog) bool = tsBoundariesStrict(l) && (forall s int, i int64, j int64 {entryTsAt(l.segments[s].Index, i), entryTsAt(l.segments[s].Index, j)} :: 0 <= s && s < len(l.segments) && 0 <= i && i < j && j < entryCount(l.segments[s].Index) ==> entryTsAt(l.segments[s].Index, i) < entryTsAt(l.segments[s].Index, j))
+// LatestOffsetBeforeTimestamp(ts): a stop position such that every message with a timestamp <= ts is at or below it
+// and every message with a later timestamp is above it
+//@ func (*commitLog).LatestOffsetBeforeTimestamp serves C10
+//@   returns (off, err)
+//@   requires l != nil
+//@   assumes tsLogWF(l)
+//@   assumes forall x *segment {x.lastOffset} :: x != nil && x.Index != nil && !segEmpty(x) ==> x.lastOffset == entryOffAt(x.Index, entryCount(x.Index) - 1)
+//@   call findEntryByTimestamp requires [hint-older-segments-are-older] forall s int, i int64 {entryTsAt(l.segments[s].Index, i)} :: 0 <= s && s < idx - 1 && 0 <= i && i < entryCount(l.segments[s].Index) ==> entryTsAt(l.segments[s].Index, i) <= timestamp
+//@   call findEntryByTimestamp requires [hint-candidate] idx >= 1 ==> seg == l.segments[idx-1] && !segEmpty(l.segments[idx-1])
+//@   call findEntryByTimestamp requires [hint-candidates-last-offset] idx >= 1 ==> l.segments[idx-1].lastOffset == entryOffAt(l.segments[idx-1].Index, entryCount(l.segments[idx-1].Index) - 1)
+//@   call findEntryByTimestamp requires [hint-later-segments-above-the-candidates-last-offset] forall s int, i int64 {entryOffAt(l.segments[s].Index, i)} :: idx <= s && idx >= 1 && s < len(l.segments) && 0 <= i && i < entryCount(l.segments[s].Index) ==> entryOffAt(l.segments[s].Index, i) > seg.lastOffset
+//@   call findEntryByTimestamp requires [hint-later-segments-are-newer] forall s int, i int64 {entryTsAt(l.segments[s].Index, i)} :: idx <= s && s < len(l.segments) && 0 <= i && i < entryCount(l.segments[s].Index) ==> entryTsAt(l.segments[s].Index, i) > timestamp
+//@   ensures [nothing-newer-included] err == nil ==> (forall s int, i int64 :: 0 <= s && s < len(l.segments) && 0 <= i && i < entryCount(l.segments[s].Index) && entryTsAt(l.segments[s].Index, i) > timestamp ==> entryOffAt(l.segments[s].Index, i) > off)
+//@   ensures [nothing-older-left-out] err == nil && tsAllStrict(l) ==> (forall s int, i int64 :: 0 <= s && s < len(l.segments) && 0 <= i && i < entryCount(l.segments[s].Index) && entryTsAt(l.segments[s].Index, i) <= timestamp ==> entryOffAt(l.segments[s].Index, i) <= off)
+//@   ensures [nothing-older-left-out-equal-timestamps] err == nil ==> (forall s int, i int64 :: 0 <= s && s < len(l.segments) && 0 <= i && i < entryCount(l.segments[s].Index) && entryTsAt(l.segments[s].Index, i) <= timestamp ==> entryOffAt(l.segments[s].Index, i) <= off)
